@@ -17,25 +17,31 @@ T = s4u.T
 INF = float("inf")
 SPEED = timing.SPEED
 KT2 = "kill-time-set-twice"
+UNKNOWN_DURATION = {"acquire", "acquire_timeout", "lock", "cv_wait", "cv_wait_for", "barrier", "get", "put", "mq_get", "mq_put", "io", "unlock"}
 INSTANT = "property-set-on-terminated-actor"
 UNSTARTED = "suspend-actor-with-unstarted-activity"
 
 
 def suspend_races_activity_start(log):
-    """True when the run stops in a round in which some actor asks to suspend x while x has just created an activity (exec, I/O) whose
-    start is x's pending request: ActorImpl::suspend() then suspends an activity that has no model action yet."""
+    """True when the run stops in a round in which some actor asks to suspend x while x owns an activity without model action: created
+    but not started yet (exec_init / io_init done, start() is x's pending request), or finished but never waited for.
+    ActorImpl::suspend() then calls ActivityImpl::suspend() on it, which dereferences the null model_action_."""
     pend = {}
+    owns = set()
     for l in log.lines:
         if l.get("k") == "req":
             pend[l["a"]] = l
+            if l["op"][0] in ("exec_async", "io_async", "put_async", "get_async", "mq_put_async", "mq_get_async"):
+                owns.add(l["a"])
         elif l.get("k") == "ret":
             pend.pop(l["a"], None)
     for a, l in pend.items():
         if l["op"][0] == "suspend":
             x = pend.get(l["op"][1])
-            if x is not None and x["t"] == l["t"] and x["op"][0] in ("exec", "exec_async", "io", "io_async") and x["n"] > l["n"] - 50:
+            if l["op"][1] in owns or (x is not None and x["t"] == l["t"] and x["op"][0] in ("exec", "exec_async", "io", "io_async")):
                 return True
     return False
+
 
 Q = st.integers(1, 8).map(lambda k: k / 4)                      # coinciding dates are frequent by construction
 FINE = st.one_of(Q, Q, Q, st.integers(1, 2048).map(lambda k: k / 1024))
@@ -50,7 +56,7 @@ def body(draw, me, names, depth, ntmpl, allow_block=True, has_kill_time=False):
     killset = 1 if has_kill_time else 0
     for _ in range(draw(st.integers(0, 6))):
         k = draw(st.sampled_from(["sleep", "sleep", "sleep", "exec", "exec", "exec", "exec", "on_exit_add", "yield", "now", "join", "join_t", "join_t",
-                                  "kill", "suspend", "resume", "suspend_self", "daemonize", "killtime", "spawn", "exit"]))
+                                  "kill", "suspend", "resume", "suspend_self", "daemonize", "killtime", "spawn", "exit", "block", "block"]))
         if k == "sleep":
             ops.append(["sleep", draw(FINE)])
         elif k == "exec":
@@ -76,6 +82,43 @@ def body(draw, me, names, depth, ntmpl, allow_block=True, has_kill_time=False):
             ops.append(["spawn", draw(st.integers(0, ntmpl - 1))] + (["h0"] if draw(st.integers(0, 3)) == 0 else []))
         elif k == "exit" and draw(st.integers(0, 2)) == 0:
             ops.append(["exit"])
+        elif k == "block":
+            # operations that block on another actor: what matters here is being killed / suspended / rebooted while blocked in them
+            # (their own semantics belong to C04-C10); the specification only knows that they take an unknown time
+            b = draw(st.sampled_from(["acquire", "acquire_to", "release", "lock", "cv", "cv_to", "notify", "barrier", "get", "get_to", "put",
+                                      "mq_get", "mq_get_to", "mq_put", "exec_async", "io"]))
+            if b == "acquire" and allow_block:
+                ops.append(["acquire", 0])
+            elif b == "acquire_to":
+                ops.append(["acquire_timeout", 0, draw(FINE)])
+            elif b == "release":
+                ops.append(["release", 0])
+            elif b == "lock" and allow_block:
+                ops += [["lock", 0], ["sleep", draw(FINE)], ["unlock", 0]]
+            elif b == "cv" and allow_block:
+                ops += [["lock", 0], ["cv_wait", 0], ["unlock", 0]]
+            elif b == "cv_to":
+                ops += [["lock", 0], ["cv_wait_for", 0, draw(FINE)], ["unlock", 0]]
+            elif b == "notify":
+                ops.append(["notify_all", 0])
+            elif b == "barrier" and allow_block:
+                ops.append(["barrier", 0])
+            elif b == "get" and allow_block:
+                ops.append(["get", draw(st.integers(0, 1)), {}])
+            elif b == "get_to":
+                ops.append(["get", draw(st.integers(0, 1)), {"timeout": draw(FINE)}])
+            elif b == "put" and allow_block:
+                ops.append(["put", draw(st.integers(0, 1)), float(draw(st.integers(0, 4)) * 256), {}])
+            elif b == "mq_get" and allow_block:
+                ops.append(["mq_get", 0, {}])
+            elif b == "mq_get_to":
+                ops.append(["mq_get", 0, {"timeout": draw(FINE)}])
+            elif b == "mq_put":
+                ops.append(["mq_put", 0, {"timeout": draw(FINE)}])
+            elif b == "exec_async":
+                ops.append(["exec_async", draw(FINE) * SPEED, {"nostart": draw(st.booleans())}, 100 + len(ops) + 10 * draw(st.integers(0, 50))])
+            elif b == "io":
+                ops.append(["io", "d_h0", float(draw(st.integers(1, 8)) * 131072), draw(st.sampled_from(["read", "write"]))])
     return ops
 
 
@@ -156,6 +199,7 @@ def c11_programs(draw):
             o2.append(draw(st.sampled_from([["kill", w], ["suspend", w], ["resume", w], ["join", w, draw(FINE)], ["join", w]])))
         actors.append({"name": "c1", "host": "h0", "ops": o2, "on_exit": 0})
     return {"cfg": list(s4u.SHARING_FREE_CFG), "platform": timing.platform(3), "actors": actors, "templates": templates,
+            "objects": {"mutex": [{"recursive": False}], "sem": [0], "cond": [0], "barrier": [2], "mailbox": 2, "mqueue": 1},
             "quiet": ["act"]}
 
 
@@ -507,6 +551,17 @@ def check_op(inst, rec, oc, labels):
             labels.add("join-ends-by-" + ("death" if death <= limit else "timeout"))
         if tg is not None and death < INF and inst.suspended_at(nat):
             labels.add("join-while-suspended")
+    elif o in UNKNOWN_DURATION:
+        # blocks on another actor for a time that this specification does not model: only "nothing completes during a suspension"
+        labels.add("blocking-op")
+        if t1 is not None:
+            if t1 < t0:
+                oc.bad("returns-before-call", "%s returned at %r" % (who, t1))
+            if any(s < t1 < r for s, r in inst.susp):
+                oc.bad("suspended-actor-makes-progress", "%s returned at %r; suspensions %s" % (who, t1, inst.susp))
+        elif inst.t_end is not None and inst.t_end > t0:
+            labels.add("ends-while-blocked")
+        return
     elif o == "suspend_self":
         exp = {rec["interval"][1]}
     elif o == "exit":
